@@ -1,4 +1,4 @@
-"""C11 -- undo and redo are exact inverses (clauses R11.1-R11.6)."""
+"""C11 -- undo and redo are exact inverses (clauses R11.1-R11.8)."""
 from __future__ import annotations
 
 import ast
@@ -272,6 +272,14 @@ def check(ctx, res) -> None:
                 "preference in force at the first change) is frozen, so a limit configured afterwards is ignored and the undo list exceeds it",
                 function=m.qualname)
     res.floor("R11.6", "History properties", n6, 2)
+
+    # ---- R11.7 (=R10.9) each file-system primitive has exactly its own effect (undo replays inverse primitives)
+    common.fs_primitive_purity_rule(ctx, res, "R11.7")
+
+    # ---- R11.8 (=R16.6) undo of a content change restores the newline convention captured by do()
+    from .c16 import undo_newline_rule
+
+    undo_newline_rule(ctx, res, "R11.8")
 
     # ---- R11.4 symmetric containment
     dep = idx.need_func("rope.base.history._FindChangeDependencies._depends_on")
